@@ -44,3 +44,14 @@ Example ex_backlog :
   crash sE (img_os sE) /\
   exists s', recover Hc cfE (img_os sE) = Ok s' /\ phase_ s' = PIdle /\ committed s' < precommitted s'.
 Proof. split; [apply crash_os|]. eexists. split; [vm_compute; reflexivity|]. vm_compute. split; reflexivity. Qed.
+
+(* the repaired configuration has reachable states with a non-empty tree (premises of tree_ok) *)
+Definition cfR := mkCfg 2 4 false 0 true.
+Definition sR := get (run Hc (init Hc cfR 1) opsE) (init Hc cfR 1).
+Example ex_repaired_reach :
+  exists s, reach Hc cfR 1 s /\ c_prealloc cfR = false /\ 0 < c_thld cfR /\ c_ahtsync cfR = true /\ asize s = 3.
+Proof.
+  exists sR. split.
+  - apply (Refuted.reach_run cfR 1 (init Hc cfR 1) opsE sR (r_init Hc cfR 1)). vm_compute. reflexivity.
+  - vm_compute. repeat split; congruence.
+Qed.
